@@ -206,15 +206,11 @@ Fixpoint encode (v : value) : option wire :=
   | VInt z => if int_packable z then Some (WInt z) else None          (* OverflowError *)
   | VFloat b => Some (WF64 b) | VBool b => Some (WBool b) | VNone => Some WNil
   | VStr s => Some (WStr s) | VBytes s => Some (WBin s)
-  (* 1. ndarray with dtype.hasobject -> bytes_ndarray *)
+  (* 1. ndarray with dtype == object -> bytes_ndarray *)
   | VObj shape elems => option_map (WExt EXT_bytes_ndarray) (bytes_ndarray_to_bytes shape elems)
-  | VOther o =>
-      if o_hasobject o then
-        (* structured dtype with an object field: flatten() yields np.void items, none is bytes *)
-        if Nat.eqb (prod (o_shape o)) 0 then Some (WExt EXT_bytes_ndarray (WArr [shape_wire (o_shape o); WArr []]))
-        else None
-      (* 2. any other ndarray / jax.Array -> ndarray *)
-      else option_map (WExt EXT_ndarray) (other_to_bytes o)
+  (* 2. any other ndarray / jax.Array -> ndarray (structured dtypes with an object field or
+        aligned fields are refused by _ndarray_to_bytes) *)
+  | VOther o => option_map (WExt EXT_ndarray) (other_to_bytes o)
   | VArr a => Some (WExt EXT_ndarray (ndarray_to_bytes a))
   | VJax a => Some (WExt EXT_ndarray (ndarray_to_bytes (astype_native a)))   (* np.array(arr) *)
   (* 3. np.generic -> npscalar, packed as a 0-d array *)
@@ -317,15 +313,6 @@ Fixpoint wf (v : value) : bool :=
   | VOther o | VNpOther o => match dtype_of_name (o_name o) with None => true | Some _ => false end
   | VObj shape elems => Nat.eqb (length elems) (prod shape)
   | VNpScalar d bits => in_range d bits
-  | _ => true
-  end.
-
-(* the one class on which the code as written silently alters an unsupported leaf:
-   an EMPTY array of a structured dtype with an object field *)
-Fixpoint no_empty_hasobject (v : value) : bool :=
-  match v with
-  | VDict _ vs | VList vs | VTuple vs => forallb no_empty_hasobject vs
-  | VOther o => negb (o_hasobject o && Nat.eqb (prod (o_shape o)) 0)
   | _ => true
   end.
 
@@ -436,8 +423,7 @@ Definition expected_dispatch (t : leaf_tag) : option Z :=
   | TArr _ _ | TJax _ => Some EXT_ndarray
   | TObjBytes | TObjEmpty => Some EXT_bytes_ndarray
   | TObjMixed => None
-  | TOther true _ e => if e then Some EXT_bytes_ndarray else None
-  | TOther false a _ => if a then None else Some EXT_ndarray
+  | TOther h a _ => if h || a then None else Some EXT_ndarray
   | TNpScalar _ => Some EXT_npscalar
   | TNpOther h a => if h || a then None else Some EXT_npscalar
   | TComplex => Some EXT_native_complex
@@ -455,7 +441,7 @@ Definition tag_ok (t : leaf_tag) : bool :=
   let v := sample t in
   wf v && optz_eqb (dispatch_of v) (expected_dispatch t) &&
   match roundtrip v with
-  | Some v' => if supported v then value_eqb v' (canon v) else negb (no_empty_hasobject v)
+  | Some v' => supported v && value_eqb v' (canon v)
   | None => negb (supported v)
   end.
 
@@ -485,7 +471,7 @@ Definition C16_agree (c : C16_case) (o : C16_obs) : bool :=
       | ORejectSer, None => negb (supported c)
       | ORejectDes, Some w => match decode w with None => negb (supported c) | Some _ => false end
       | OOk v', Some w => match decode w with
-                          | Some v => value_eqb v v' && (value_eqb v (canon c) || negb (no_empty_hasobject c))
+                          | Some v => value_eqb v v' && value_eqb v (canon c) && supported c
                           | None => false
                           end
       | _, _ => false
